@@ -4,6 +4,7 @@
    is by construction: every model function is structurally recursive. *)
 From Coq Require Import List Ascii String.
 From GT Require Import Base.GoStr Md.Parser Tree.Tree Tree.Gen Api.Simple Api.Programmable Api.Faults Api.Wasm Proofs.NoPanic Proofs.Extras.
+From GT Require Import Conc.Splitter Proofs.WorkerNoPanic.
 Import ListNotations.
 
 Theorem C12_no_panic_output : forall c input, snd (output_md c input) <> Panic.
@@ -29,6 +30,16 @@ Theorem C12_no_panic_fs : forall w c strict dir doc,
   out_panics (snd (pstep w (PMdVerify c strict dir doc))) = false.
 Proof. exact md_fs_ops_no_panic. Qed.
 Print Assumptions C12_no_panic_fs.
+
+(* massive mode's generate worker (Conc/Splitter.v) never panics either: whatever the rows of its block, whatever
+   the state of the shared parser and whatever the interleaving with the other workers *)
+Theorem C12_no_panic_massive_worker : forall st sched j, block_result j (run_sched st sched) <> BPanic.
+Proof. exact run_sched_no_panic. Qed.
+Print Assumptions C12_no_panic_massive_worker.
+
+Theorem C12_no_panic_massive_block : forall block, gen_block block <> BPanic.
+Proof. exact gen_block_no_panic. Qed.
+Print Assumptions C12_no_panic_massive_block.
 
 (* empty or blank-only input: empty output and nil, every option combination *)
 Theorem C12_blank : forall c input rows,
